@@ -4,6 +4,18 @@ import json, sys
 
 ENGINE = "gsx"
 CHECKS = {
+ "C11": dict(
+   text="The real send path is executed from an arbitrary counter pre-state and the sequence numbers on the wire are checked (+1, single permitted restart, never 0). Two concurrent senders are explored under every schedule with a bounded number of preemptions at synchronisation operations (context-bounded analysis inside the symbolic executor); wire numbers must stay +1 and messages contiguous.",
+   note="Kernel + bounded schedules: 2 senders, <= 2 (quick) / 3 (thorough) preemptions; the renewal race is outside the claim. Trusted: go/ssa, gsx (goroutine interpretation), cvc5.",
+   ref="DESIGN.md §5 C11"),
+ "C20": dict(
+   text="Two messages are received back to back through the real receive path; all memory reachable from the first delivered message is put under a write monitor while the second is received, and its content is compared afterwards. Same at UACP frame level.",
+   note="Bounds: two messages, first single- or two-chunk, three modes. Trusted: go/ssa, gsx heap model (one cell per slice element / struct field), cvc5.",
+   ref="DESIGN.md §5 C20"),
+ "C23": dict(
+   text="ApplyConfig with every non-file option (numeric arguments symbolic) is executed, followed by the construction of further configurations; package-level defaults, the later client's configuration and pointer sharing between configurations are asserted.",
+   note="Found and fixed: shared DefaultClientACK pointer. Options needing files/keys are outside. Trusted: go/ssa, gsx.",
+   ref="DESIGN.md §5 C23"),
  "C09": dict(
    text="A chunk from the real send path is modified (any byte position x any non-zero symbolic delta), truncated/extended to every length with the size field adjusted, or produced under other keys, and delivered through the real Receive/readChunk/verifyAndDecrypt; it must be rejected and nothing may panic. The MAC is ideal (Ackermannised UF + 'a tag verifies only if issued for the same input').",
    note="Bounds: single-chunk messages, Basic256Sha256 and Basic128Rsa15, Sign and SignAndEncrypt, one modified byte. Authenticity itself is the cryptographic idealisation (K-level); safety (no panic) is decided. Found and fixed: short-chunk panic. Trusted: go/ssa, gsx, cvc5.",
